@@ -40,6 +40,12 @@ CHECKS = {
                 text="The four vulnerability detectors satisfy MUST => code => envelope of DESIGN section 8.3, including unprotected_selfdestruct's visibility filter, "
                      "constructor skip, 'only' modifier test and protective-call scan with its skip set, and the regular left-spine paths of divide_before_multiply.",
                 note=_MIR + "; specs/detectors.spec is the oracle; C01 for completeness of the searches"),
+    "C08": dict(level="other", design_ref="5/C08 + section 8.4", technique="candidate-table analysis: searched write kinds derived from the ADT, per-kind removing consumers, search roots, table provenance, helper summaries vs spec (static analysis)",
+                text="For constant_variables, immutable_variables and memory_to_calldata: all 15 write kinds are searched with the right root, every kind has a consumer "
+                     "that removes the directly written identifier from the candidate table under the kind tests only, nothing re-enters the table, the remaining "
+                     "candidates are all reported after the removals; the candidate helpers (state-variable table, constructor-assigned, memory parameters) and sstore "
+                     "equal their specs. With C01 this gives: never suggested if written anywhere, always suggested if never written.",
+                note=_MIR + "; unique, unshadowed names (property quantifier); C01"),
     "C09": dict(level="other", design_ref="5/C09", technique="gate formulas extracted from MIR guards, evaluated as formulas over the version triple against the lexicographic spec on a finite grid; guard analysis of the pragma selection (static analysis)",
                 text="Decides each gate as a boolean formula over (major, minor, patch) — exactly on the partition the constants induce (quick) and on the whole grid "
                      "0.0.0..2.12.41 (thorough) — complementarity of pre/post, that only a directive named solidity yields a version, and that no version means no report. "
